@@ -80,7 +80,19 @@ class Ctx:
             return self._vh[key]
         env = dict(os.environ, **GOENV)
         try:
-            shutil.copy(os.path.join(REPO, "go.sum"), os.path.join(HARNESS, "go.sum"))
+            # atomic and only when needed: several checks may run at the same time in one /verif
+            src, dst = os.path.join(REPO, "go.sum"), os.path.join(HARNESS, "go.sum")
+            with open(src, "rb") as f:
+                want = f.read()
+            have = None
+            if os.path.exists(dst):
+                with open(dst, "rb") as f:
+                    have = f.read()
+            if have != want:
+                tmp = "%s.%d.tmp" % (dst, os.getpid())
+                with open(tmp, "wb") as f:
+                    f.write(want)
+                os.replace(tmp, dst)
         except OSError as e:
             raise Infra("cannot copy go.sum: %s" % e)
         os.makedirs(os.path.join(CACHE, "bin"), exist_ok=True)
